@@ -1,7 +1,12 @@
 package main
 
 import (
+	"bytes"
+	"crypto/sha256"
+	"encoding/hex"
 	"fmt"
+	"os"
+	"os/exec"
 	"reflect"
 	"strings"
 	"sync"
@@ -232,6 +237,11 @@ func runC11(w *W) {
 	n := w.pickN(12000, 400000)
 	pool := workloadPool(w, 300)
 	fresh := map[string]string{}
+	// inputs whose Explain panics (recovered): seeded with shapes that are accepted with a parse error and crash the
+	// printer, extended by whatever this run discovers; they are replayed inside later histories
+	panickers := []string{"SELECT 1, (EXPLAIN SELECT 1 ORDER)", "SELECT (EXPLAIN SELECT", "SELECT 1 FROM (EXPLAIN SELECT 1 ORDER BY)"}
+	var seenInputs []string
+	seenOut := map[string]string{}
 	for k := 0; k < n+len(siteStatements); k++ {
 		idx, mine := w.Case()
 		if !mine {
@@ -312,9 +322,14 @@ func runC11(w *W) {
 			if r.Chance(1, 4) {
 				other = siteStatements[r.Intn(len(siteStatements))]
 			}
+			if len(panickers) > 0 && r.Chance(1, 3) {
+				other = panickers[r.Intn(len(panickers))] // an earlier call that panics and is recovered
+			}
 			o := safeParse([]byte(other), 1<<22)
 			for _, s := range o.Stmts {
-				safeExplain(s)
+				if e := safeExplain(s); e.Panicked && len(panickers) < 64 {
+					panickers = append(panickers, other)
+				}
 			}
 		}
 		obs2 := safeParse([]byte(input), 1<<22)
@@ -330,10 +345,78 @@ func runC11(w *W) {
 			}
 		}
 		w.Eval([]byte(input), true)
+		if _, dup := seenOut[input]; !dup && len(seenInputs) < 4000 {
+			seenInputs = append(seenInputs, input)
+			seenOut[input] = strings.Join(firstOut, "\x01")
+		}
 		if w.stats.Evaluations%3000 == 1 {
 			w.Sample(in)
 		}
 	}
+	// (4) order independence against a FRESH process: a child process explains the same inputs in reverse order, so
+	// every input meets a different history (first-writer-wins caches, interning, pooled buffers show up here)
+	if w.Only < 0 && len(seenInputs) > 1 {
+		w.Begin(-1, nil, "fresh-process replay in reverse order")
+		got := c11FreshReplay(seenInputs)
+		for i, in := range seenInputs {
+			if got == nil || i >= len(got) {
+				break
+			}
+			if got[i] != sumHex(seenOut[in]) {
+				w.Report(Finding{Kind: "history", Key: "history-dependent@fresh-process", Input: fmt.Sprintf("%q", in), InputHex: hexs([]byte(in)),
+					Detail: "Explain/json.Marshal output in this process differs from the output of a fresh process that met the inputs in reverse order"})
+			}
+		}
+		w.stats.Counters["fresh-process-replays"] += len(seenInputs)
+	}
+}
+
+func sumHex(s string) string {
+	h := sha256.Sum256([]byte(s))
+	return hex.EncodeToString(h[:8])
+}
+
+// c11Outputs is what both sides compute for one input.
+func c11Outputs(input string) string {
+	obs := safeParse([]byte(input), 1<<22)
+	if obs.Panicked || obs.Budget {
+		return "unparsed"
+	}
+	outs := make([]string, len(obs.Stmts))
+	for i, s := range obs.Stmts {
+		e := safeExplain(s)
+		m := safeMarshal(s)
+		outs[i] = e.Out + "\x00" + m.Out + "\x00" + errString(m.Err) + fmt.Sprint(e.Panicked, m.Panicked)
+	}
+	return strings.Join(outs, "\x01")
+}
+
+// c11FreshReplay runs `harness tool c11-replay` on the inputs in reverse order and returns the digests in input order.
+func c11FreshReplay(inputs []string) []string {
+	self, err := os.Executable()
+	if err != nil {
+		return nil
+	}
+	var in bytes.Buffer
+	for i := len(inputs) - 1; i >= 0; i-- {
+		in.WriteString(hexOrDash([]byte(inputs[i])))
+		in.WriteByte('\n')
+	}
+	cmd := exec.Command(self, "tool", "c11-replay")
+	cmd.Stdin = &in
+	out, err := cmd.Output()
+	if err != nil {
+		return nil
+	}
+	lines := strings.Split(strings.TrimSpace(string(out)), "\n")
+	if len(lines) != len(inputs) {
+		return nil
+	}
+	res := make([]string, len(inputs))
+	for k, ln := range lines {
+		res[len(inputs)-1-k] = ln
+	}
+	return res
 }
 
 func firstDiff(a, b string) string {
